@@ -219,7 +219,7 @@ ADDENDA = {
     "C30": " Plus token sequences on one detector without reset (second exhaustive pass with an accepted neighbour token first) and the USB2 data receiver's acceptance under rx_valid gaps (C02's Sub reused). Plus USB3 header trains (back-to-back, forged/stale check fields) through RawHeaderPacketReceiver.",
     "C33": " enable_scrambling switched per word incl. the end-of-training shape on the real physical layer.",
     "C38": " Link-down instants also aimed at received headers' last word (-2..+8); a header counted by the advertisement must have been accepted (offered on the queue or LGOODed); request strobes pulsed during the down period. Plus a Sub on the complete USB3LinkLayer (mock PHY, host BFM): 2-6 U0 periods entered by training, Recovery or hot reset; advertisement and sequence numbers judged after every entry.",
-    "C40": " Long packets (1020-1024, 2^k+-1) in 1 of 40.",
+    "C40": " Long packets (1020-1024, 2^k+-1) in 1 of 40. Aborted payloads whose end-bad framing symbols alias the missing CRC bytes are built by construction (one recorded known finding).",
     "C41": " Warm-reset pulses (1-640 cycles) injected after any script step incl. Hot Reset.Active/Exit and recovery substates.",
     "C45": " Plus an open-loop Sub strobing requests at every offset around the queue's acceptance cycle.",
     "C47": " Whole 128-bit header generated (link-control word incl. Delayed bit); plus a Sub on the real USB3ProtocolLayer with link.in_reset pulses around the transfer cycle.",
